@@ -159,6 +159,14 @@ CLAIMED['C10'] = dict(
     technique='bounded stand-in at the property level: fault injection in every session state of the real Peer over loopback TCP, oracle = RFC 4271 section 6 class table; ' + PYVC + ' on the header / OPEN / hold-timer classification shared with C06, C07, C12',
 )
 
+CLAIMED['C05'] = dict(
+    category='exploration',
+    text='BOUNDED ONLY (session-traces). Traces of the REAL Peer._run() (real FSM, Protocol, Incoming connection, timers; bounded/sessionharness.py, loopback TCP, scripted remote) recorded from outside -- every FSM.change, every message written with the FSM state at that moment, every up / down handed to the API, transport closure -- for: 26 faults (the C10 table) x OPENSENT / OPENCONFIRM / ESTABLISHED, a NOTIFICATION received in each state, the peer closing the connection or sending a NOTIFICATION with and without reconnection allowed, API teardown, shutdown, re-establishment requests with and without a new neighbor definition, each in the three states; a peer which never sends its KEEPALIVE with hold time 0 / 3 / 180; and six two-session histories on one Peer object (failed OPEN exchange / established and lost / established and torn down, in pairs). Every trace is judged against RFC 4271 section 8: T1 only RFC transitions; T2 ESTABLISHED only after our OPEN was sent and the peer OPEN and a KEEPALIVE were received; T3 UPDATE / End-of-RIB / ROUTE-REFRESH written in ESTABLISHED only; T4 transport closed once the session is over; T5 on the API every up is followed by a down before the next up.',
+    note='Exploration level: scripted scenarios, not all interleavings. Not explored: an incoming connection arriving while a session is being established or is up (Peer.handle_connection collision resolution by router-id; a hang on the closed socket in that case was reported by a seeding agent and is not examined), reload through the Reactor, outgoing connection establishment (the harness hands the peer an accepted connection), time-outs other than the hold timer. The FSM object does not enforce its own transition table (FSM.change has the check commented out): there is no function whose contract could carry T1, which is why no deductive obligation is claimed. Three in-memory harness canaries. One genuine defect repaired (down not reported when the last allowed session is lost).',
+    ref='DESIGN.md §6 C05, §11.17',
+    technique='bounded stand-in only: traces of the real Peer over loopback TCP under scripted faults, local events and two-session histories, judged against the RFC 4271 transition table and four trace invariants (no contract within reach carries the property: the FSM is a projection of the control flow of Peer._run)',
+)
+
 NOT_YET = 'check not built yet in this session (planned in DESIGN.md §6); not claimed until its obligations are discharged'
 NA = {}
 
